@@ -279,12 +279,21 @@ type endpoint struct {
 	replySent   map[string]bool
 	replies     int
 	ids         map[string]string // formatted id -> token
-	replyWG     sync.WaitGroup
+	inflight    int               // reply goroutines not yet finished (guarded by mu; a WaitGroup
+	// would be misused here: requests of cancelled calls may still arrive while the session waits)
+}
+
+func (e *endpoint) begin() { e.mu.Lock(); e.inflight++; e.mu.Unlock() }
+func (e *endpoint) end()   { e.mu.Lock(); e.inflight--; e.mu.Unlock() }
+func (e *endpoint) quiet() bool {
+	e.mu.Lock()
+	defer e.mu.Unlock()
+	return e.inflight == 0
 }
 
 func (e *endpoint) goSend(it heldItem) {
-	e.replyWG.Add(1)
-	go func() { defer e.replyWG.Done(); e.send(it) }()
+	e.begin()
+	go func() { defer e.end(); e.send(it) }()
 }
 
 // handle is the adversarial peer: it answers as the caller's plan (carried in
@@ -331,9 +340,9 @@ func (e *endpoint) handle(ctx context.Context, reply jsonrpc2.Replier, req jsonr
 		case "async", "error":
 			e.goSend(it)
 		case "late":
-			e.replyWG.Add(1)
+			e.begin()
 			go func() {
-				defer e.replyWG.Done()
+				defer e.end()
 				time.Sleep(time.Duration(p.Delay) * time.Microsecond)
 				e.send(it)
 			}()
@@ -696,11 +705,13 @@ func runSession(spec sessSpec, wdMs int) *sessResult {
 			e.goSend(it)
 		}
 	}
+	// quiescence: no reply goroutine running, nothing in flight, both read loops
+	// waiting for more bytes — and still so after a second look
+	quiet := func() bool {
+		return a.quiet() && b.quiet() && ab.idle() && ba.idle() && a.quiet() && b.quiet() && ab.idle() && ba.idle()
+	}
 	if !early {
-		a.replyWG.Wait()
-		b.replyWG.Wait()
-		// quiescence: nothing in flight, both read loops waiting for more bytes
-		if !waitUntil(func() bool { return ab.idle() && ba.idle() }, 10*time.Second) {
+		if !waitUntil(quiet, 10*time.Second) {
 			s.inconclusive("pipes did not drain")
 		}
 		s.finalChecks(a, b, ab, ba)
@@ -727,9 +738,7 @@ func runSession(spec sessSpec, wdMs int) *sessResult {
 	if !okA || !okB {
 		s.violate("conc/no-shutdown", "Done() not closed 10 s after Close (A done=%v, B done=%v); templ goroutines: %s", okA, okB, templStacks())
 	}
-	a.replyWG.Wait()
-	b.replyWG.Wait()
-	if !waitUntil(func() bool { return runtime.NumGoroutine() <= base }, 5*time.Second) {
+	if !waitUntil(func() bool { return a.quiet() && b.quiet() && runtime.NumGoroutine() <= base }, 5*time.Second) {
 		st := templStacks()
 		if st != "" {
 			s.violate("conc/goroutine-leak", "%d goroutines above baseline after Close+Done: %s", runtime.NumGoroutine()-base, st)
